@@ -97,13 +97,13 @@ func (x *Exec) typeFacts(st *State, t types.Type, term string) {
 			st.assume(r.inRange(term))
 		} else if u.Info()&types.IsString != 0 {
 			st.assume(app("g_isbytes", term))
-			st.assume(tCmp("<=", sLen(SSeqI, term), maxLenLit))
+			st.assume(tAnd(tCmp("<=", "0", sLen(SSeqI, term)), tCmp("<=", sLen(SSeqI, term), maxLenLit)))
 		}
 	case *types.Slice:
 		if isByteElem(u.Elem()) {
 			st.assume(app("g_isbytes", term))
 		}
-		st.assume(tCmp("<=", sLen(x.w.SortOf(t), term), maxLenLit))
+		st.assume(tAnd(tCmp("<=", "0", sLen(x.w.SortOf(t), term)), tCmp("<=", sLen(x.w.SortOf(t), term), maxLenLit)))
 	case *types.Array:
 		st.assume(tEq(sLen(x.w.SortOf(t), term), num(u.Len())))
 		if isByteElem(u.Elem()) {
